@@ -4,7 +4,8 @@
    hypotheses are the leading quantifiers / premises). *)
 From ReqV Require Import Lib.Bytes Model.H1Resp Model.H1Render Model.RespRender Model.StreamBody
   Model.RespAPI Model.H1Client Model.MuxResp Model.H1Fast
-  Proofs.RespRenderProofs Proofs.H1RoundTrip Proofs.RespAPIProofs Proofs.MuxRespProofs Proofs.C02CrossProto Proofs.H1FastProofs.
+  Proofs.RespRenderProofs Proofs.H1RoundTrip Proofs.RespAPIProofs Proofs.MuxRespProofs Proofs.C02CrossProto Proofs.H1FastProofs Proofs.C02GenProofs.
+From ReqV Require Gen.C02Consts.
 
 (* ---------- HTTP/1.1: parse (render x) = x ---------- *)
 
@@ -372,6 +373,45 @@ Theorem C02_result_then_download : forall code d,
   a_unmarshal r = Some d /\ a_out r = d /\ s_cache (a_state r) = Some d /\ s_err (a_state r) = false.
 Proof. exact result_then_download. Qed.
 Print Assumptions C02_result_then_download.
+
+(* ---------- the tie to the source text (coq/Gen/C02Consts.v, regenerated by gosync) ---------- *)
+
+Theorem C02_auto_read_guard_is_the_sources :
+  Gen.C02Consts.fork_auto_read_conjuncts =
+    ["resp.Err == nil"; "!c.disableAutoReadResponse"; "!r.isSaveResponse";
+     "!r.disableAutoReadResponse"; "resp.StatusCode > 199"]%string /\
+  Gen.C02Consts.fork_restores_body = true.
+Proof. exact auto_read_guard_agrees. Qed.
+Print Assumptions C02_auto_read_guard_is_the_sources.
+
+Theorem C02_model_auto_reads_under_the_sources_guard : forall c code body,
+  c_result c = false -> c_save c = false ->
+  a_state (finish c code body) =
+    if (negb (c_disable_auto c) && (Gen.C02Consts.fork_auto_read_min_status <? code)%Z)%bool then
+      let '(_, _, s) := to_bytes_t (c_tf c) {| s_err := false; s_cache := None; s_body := body |} in
+      {| s_err := s_err s; s_cache := s_cache s;
+         s_body := mem_reader (match s_cache s with Some b => b | None => [] end) |}
+    else {| s_err := false; s_cache := None; s_body := body |}.
+Proof. exact finish_auto_guard. Qed.
+Print Assumptions C02_model_auto_reads_under_the_sources_guard.
+
+Theorem C02_tobytes_and_download_guards_are_the_sources :
+  (Gen.C02Consts.fork_tobytes_guards =
+     ["r.Err != nil"; "r.body != nil"; "r.Response == nil || r.Response.Body == nil"]%string /\
+   Gen.C02Consts.fork_transformer_guard =
+     "err == nil && r.Request.client.responseBodyTransformer != nil"%string) /\
+  (Gen.C02Consts.fork_download_guard = "r.Response == nil || !r.Request.isSaveResponse"%string /\
+   Gen.C02Consts.fork_download_cache_guard = "r.body != nil"%string).
+Proof. exact (conj tobytes_guards_agree download_guards_agree). Qed.
+Print Assumptions C02_tobytes_and_download_guards_are_the_sources.
+
+Theorem C02_bounds_are_the_sources :
+  (forall code, success_state code =
+     ((Gen.C02Consts.fork_success_lo <? code)%Z && (code <? Gen.C02Consts.fork_success_hi)%Z)%bool) /\
+  Z.of_nat max_1xx = Gen.C02Consts.fork_max_1xx_h1 /\ Gen.C02Consts.fork_max_1xx_h2 = 5%Z /\
+  Gen.C02Consts.fork_max_1xx_h3 = 5%Z /\ Z.of_nat br_size = Gen.C02Consts.fork_read_buffer.
+Proof. exact (conj success_state_agrees bounds_agree). Qed.
+Print Assumptions C02_bounds_are_the_sources.
 
 Example C02_nonvacuous :
   let fs := [ {| wf_name := bs "set-cookie"; wf_pre := bs " "; wf_value := bs "a=1"; wf_post := [] |};
